@@ -51,6 +51,36 @@ def _event(args):
     if rng.random() < 0.2:
         text = rng.choice(["f", "o", "C(k)"]) + " ~" + text.split("~", 1)[1]
     ns = rows.namespace(w, rng)
+    if rng.random() < 0.3:
+        # missing values in a used column (dropped by default): re-indexing and column operations must
+        # still have no effect -- the rows are not permuted here, so both builds keep the same rows
+        df0 = w.df.copy()
+        col = rng.choice(["x", "z", "f", "g"])
+        s0 = df0[col].astype(float) if col in ("x", "z") else df0[col].astype(object)
+        for r in rng.sample(range(w.n), max(1, w.n // 5)):
+            s0.iloc[r] = np.nan if col in ("x", "z") else None
+        df0[col] = s0
+        s1, d1 = design.build(text, df0, extra_namespace=ns)
+        df2, perm, ops = transform_frame(rng, df0, w.n)
+        inv = [0] * w.n
+        for newpos, old in enumerate(perm):
+            inv[old] = newpos
+        df2 = df2.iloc[inv]  # undo the permutation, keep the new index / columns
+        ops = ops + ["NA in " + col + " (no permutation)"]
+        s2, d2 = design.build(text, df2, extra_namespace=ns)
+        ev = {"id": idx, "kind": "rows", "status": "ok", "a": [], "b": [], "map": [], "la": [], "lb": [], "tag": "frame_ops_with_na"}
+        info = {"formula": text, "ops": ops, "perm": list(range(w.n))}
+        if s1 != "ok" and s2 != "ok":
+            return None, info
+        if s1 != "ok" or s2 != "ok":
+            ev["status"] = "only_one_frame_fails:" + type(d1 if s1 != "ok" else d2).__name__
+            return ev, info
+        a, la = rows.stack(d1)
+        b, lb = rows.stack(d2)
+        ia, ib = rows.intern([a, b])
+        ev.update(a=ia, b=ib, map=list(range(1, len(ia) + 1)))
+        ev["la"], ev["lb"] = rows.label_ids(la, lb)
+        return ev, info
     s1, d1 = design.build(text, w.df, extra_namespace=ns)
     df2, perm, ops = transform_frame(rng, w.df, w.n)
     s2, d2 = design.build(text, df2, extra_namespace=ns)
